@@ -11,7 +11,10 @@
 EXTENDS Naturals, Sequences, FiniteSets, TLC, Json
 CONSTANTS MetaSizeChecked, InodeTypeChecked, DirCountChecked, NameSizeChecked, FragIdxChecked, FragBoundsChecked,
           DiskSizeCheckedRead, DiskSizeCheckedStream, LoopCheckedTree, LoopCheckedIter, XattrIdxChecked, IdIdxChecked,
-          TableBoundsChecked, Emit
+          TableBoundsChecked,
+          FragSumNoWrap,      \* sqfs_data_reader_get_fragment: offset + tail size is compared without 32 bit wrap-around
+          LongLinkBySize,     \* sqfs2tar decides "needs a GNU long link record" by the same length it later copies (the on-disk target size)
+          Emit
 
 Fields == [ super_block_size : {"ok", "zero", "notpow2", "huge"},
             super_id_count   : {"ok", "zero", "huge"},
@@ -25,12 +28,13 @@ Fields == [ super_block_size : {"ok", "zero", "notpow2", "huge"},
             blk_word         : {"ok", "oversize"},
             blk_count        : {"ok", "huge_filesize"},
             frag_idx         : {"ok", "outofrange"},
-            frag_off         : {"ok", "beyond"},
+            frag_off         : {"ok", "beyond", "wrap"},             \* wrap: offset close to 2^32, offset + tail size wraps
             xattr_idx        : {"ok", "outofrange"},
-            id_idx           : {"ok", "outofrange"} ]
+            id_idx           : {"ok", "outofrange"},
+            slink_size       : {"ok", "beyond_string", "huge"} ]   \* target size field: larger than the string (runs into the next inodes, NUL inside) / huge
 Names == DOMAIN [super_block_size |-> 0, super_id_count |-> 0, table_start |-> 0, meta_hdr_size |-> 0, inode_type |-> 0, dir_count |-> 0,
                  dir_size |-> 0, name_size |-> 0, entry_ref |-> 0, blk_word |-> 0, blk_count |-> 0, frag_idx |-> 0, frag_off |-> 0,
-                 xattr_idx |-> 0, id_idx |-> 0]
+                 xattr_idx |-> 0, id_idx |-> 0, slink_size |-> 0]
 Corrupted(p) == {f \in Names : p[f] # "ok"}
 
 (* outcome of one consumer over plan p: "ok" | "reject" | "overflow" | "hang" *)
@@ -39,6 +43,7 @@ TableStep(p) == IF p.table_start # "ok" \/ p.super_id_count = "huge" THEN (IF Ta
 MetaStep(p)  == IF p.meta_hdr_size = "over8k" THEN (IF MetaSizeChecked THEN "reject" ELSE "overflow") ELSE "go"
 InodeStep(p) == IF p.inode_type = "bad" THEN (IF InodeTypeChecked THEN "reject" ELSE "overflow")
                 ELSE IF p.blk_count = "huge_filesize" THEN "reject"            \* block count overflow / allocation failure / read beyond table
+                ELSE IF p.slink_size = "huge" THEN "reject"                    \* the target read runs off the inode table (or the allocation fails)
                 ELSE IF p.id_idx = "outofrange" THEN (IF IdIdxChecked THEN "reject" ELSE "overflow") ELSE "go"
 DirStep(p)   == IF p.dir_count = "over256" THEN (IF DirCountChecked THEN "reject" ELSE "overflow")
                 ELSE IF p.name_size = "huge" THEN (IF NameSizeChecked THEN "reject" ELSE "overflow")
@@ -50,19 +55,31 @@ WalkStep(p, loopChecked) ==
 DataStep(p, diskChecked) ==
                 IF p.blk_word = "oversize" THEN (IF diskChecked THEN "reject" ELSE "overflow")
                 ELSE IF p.frag_idx = "outofrange" THEN (IF FragIdxChecked THEN "reject" ELSE "overflow")
-                ELSE IF p.frag_off = "beyond" THEN (IF FragBoundsChecked THEN "reject" ELSE "overflow") ELSE "go"
+                ELSE IF p.frag_off \in {"beyond", "wrap"} THEN (IF FragBoundsChecked THEN "reject" ELSE "overflow") ELSE "go"
+(* the library call that hands out a file's tail (no tool uses it): its own bounds test *)
+FragApiStep(p) == IF p.frag_idx = "outofrange" THEN (IF FragIdxChecked THEN "reject" ELSE "overflow")
+                  ELSE IF p.frag_off = "beyond" THEN (IF FragBoundsChecked THEN "reject" ELSE "overflow")
+                  ELSE IF p.frag_off = "wrap" THEN (IF FragBoundsChecked /\ FragSumNoWrap THEN "reject" ELSE "overflow") ELSE "go"
+(* lib/tar/src/write_header.c: the target is copied with its on-disk size into the 100 byte linkname field unless a  *)
+(* GNU long link record was written; both decisions must use the same length (the string may be shorter: NUL inside) *)
+LinkHdrStep(p) == IF p.slink_size = "beyond_string" THEN (IF LongLinkBySize THEN "go" ELSE "overflow") ELSE "go"
 XattrStep(p) == IF p.xattr_idx = "outofrange" THEN (IF XattrIdxChecked THEN "reject" ELSE "overflow") ELSE "go"
 
 RECURSIVE Chain(_)
 Chain(steps) == IF steps = <<>> THEN "ok" ELSE IF Head(steps) = "go" THEN Chain(Tail(steps)) ELSE Head(steps)
 (* consumers: tree readers (rdsquashfs -l/-d/-u, sqfsdiff) use read_tree.c; sqfs2tar uses the directory iterator;           *)
 (* rdsquashfs -c and sqfs2tar read file data through the stream API, rdsquashfs -u / the library API through positional reads *)
-Consumers == {"list", "cat", "unpack", "sqfs2tar", "xattr"}
+(* "api": the reader API called directly on every inode (meta reader, dir reader, positional read, get_block,                *)
+(* get_fragment, stream, xattr reader, id table) - harness/replay_readers.c                                                 *)
+Consumers == {"list", "cat", "unpack", "sqfs2tar", "xattr", "api"}
 Outcome(p, c) ==
   CASE c = "list"     -> Chain(<<SuperStep(p), TableStep(p), MetaStep(p), InodeStep(p), DirStep(p), WalkStep(p, LoopCheckedTree)>>)
     [] c = "cat"      -> Chain(<<SuperStep(p), TableStep(p), MetaStep(p), InodeStep(p), DirStep(p), WalkStep(p, LoopCheckedTree), DataStep(p, DiskSizeCheckedStream)>>)
     [] c = "unpack"   -> Chain(<<SuperStep(p), TableStep(p), MetaStep(p), InodeStep(p), DirStep(p), WalkStep(p, LoopCheckedTree), DataStep(p, DiskSizeCheckedStream)>>)
-    [] c = "sqfs2tar" -> Chain(<<SuperStep(p), TableStep(p), MetaStep(p), InodeStep(p), DirStep(p), WalkStep(p, LoopCheckedIter), XattrStep(p), DataStep(p, DiskSizeCheckedStream)>>)
+    [] c = "sqfs2tar" -> Chain(<<SuperStep(p), TableStep(p), MetaStep(p), InodeStep(p), DirStep(p), WalkStep(p, LoopCheckedIter), LinkHdrStep(p), XattrStep(p), DataStep(p, DiskSizeCheckedStream)>>)
+    [] c = "api"      -> LET pre == <<SuperStep(p), TableStep(p), MetaStep(p), InodeStep(p), DirStep(p)>>       \* the calls are independent of each other
+                             rs == {Chain(Append(pre, DataStep(p, DiskSizeCheckedRead))), Chain(Append(pre, FragApiStep(p))), Chain(Append(pre, XattrStep(p)))}
+                         IN IF "overflow" \in rs THEN "overflow" ELSE IF "hang" \in rs THEN "hang" ELSE IF "reject" \in rs THEN "reject" ELSE "ok"
     [] c = "xattr"    -> Chain(<<SuperStep(p), TableStep(p), MetaStep(p), InodeStep(p), DirStep(p), WalkStep(p, LoopCheckedTree), XattrStep(p)>>)
 
 VARIABLE plan
